@@ -346,7 +346,10 @@ def subst(f, pairs, rule):
             if c[i].text == want[0] and [t.text for t in c[i:i + n]] == want:
                 hits.append(i)
         cnt = p.get("count", 1)
-        if len(hits) != cnt:
+        if cnt == "any":
+            if not hits and not p.get("optional"):
+                raise RuleError("%s: anchored text `%s` not found" % (rule, " ".join(want)[:80]))
+        elif len(hits) != cnt:
             if p.get("optional") and not hits:
                 continue
             raise RuleError("%s: anchored text `%s` found %d times (expected %d)" % (rule, " ".join(want)[:80], len(hits), cnt))
